@@ -216,27 +216,42 @@ def track(ctx):
     w = wrappers[0]
     ws, wp = param_names(w, skip_self=False)[:2]
     fparam = param_names(tpf, skip_self=False)[0]
-    calls_f = any(pm.match('%s(%s, %s)' % (fparam, ws, wp), n) is not None for n in ast.walk(w) if isinstance(n, ast.Call))
-    sets = False
-    for n in ast.walk(w):
-        if isinstance(n, ast.If):
-            conj = n.test.values if isinstance(n.test, ast.BoolOp) and isinstance(n.test.op, ast.And) else [n.test]
-            cs = set(src(c) for c in conj)
-            if any(pm.match('set_positional_info(_N, %s)' % wp, st) is not None for st in n.body):
-                nodevar = [pm.match('set_positional_info(_N, %s)' % wp, st)['_N'] for st in n.body
-                           if pm.match('set_positional_info(_N, %s)' % wp, st) is not None][0]
-                nv = src(nodevar)
-                is_p0 = nv == '%s[0]' % wp or any(pm.match('%s = %s[0]' % (nv, wp), st) is not None for st in w.body)
-                allowed = {'isinstance(%s, Node)' % nv, 'len(%s) > 1' % wp}
-                sets = is_p0 and ('isinstance(%s, Node)' % nv) in cs and cs <= allowed
-    order_ok = False
-    idx_call = idx_if = None
-    for i, st in enumerate(w.body):
-        if any(pm.match('%s(%s, %s)' % (fparam, ws, wp), n) is not None for n in ast.walk(st) if isinstance(n, ast.Call)):
-            idx_call = i if idx_call is None else idx_call
-        if isinstance(st, ast.If) and idx_if is None:
-            idx_if = i
-    order_ok = idx_call is not None and idx_if is not None and idx_call < idx_if
+    # abstract execution of the wrapper: (result is a Node?, production non-empty?) -> what happens, in which order
+    from .. import absint
+    import itertools as _it
+
+    def act(e, s, tr):
+        tr.append('action')
+        s.setdefault('env', {})[e['_R'].id] = 'action-result'
+        return True
+
+    def act_atom(e, s, tr):
+        tr.append('action')
+        return True
+
+    def is_node(e, s, tr):
+        return s['node'] if src(e['_X']) == '%s[0]' % wp else None
+
+    def positioned(e, s, tr):
+        tr.append(('position', src(e['_N']), src(e['_P'])))
+        return True
+    wi = absint.Interp(w, [('isinstance(_X, Node)', is_node), ('len(%s) > 1' % wp, lambda e, s, tr: s['nonempty']),
+                           ('len(%s) >= 2' % wp, lambda e, s, tr: s['nonempty']), ('len(%s) <= 1' % wp, lambda e, s, tr: not s['nonempty']),
+                           ('len(%s) < 2' % wp, lambda e, s, tr: not s['nonempty']), ('len(%s) == 1' % wp, lambda e, s, tr: not s['nonempty']),
+                           ('%s(%s, %s)' % (fparam, ws, wp), act_atom)],
+                       [('_R = %s(%s, %s)' % (fparam, ws, wp), act), ('set_positional_info(_N, _P)', positioned)])
+    calls_f = sets = order_ok = True
+    for node_, nonempty in _it.product([True, False], repeat=2):
+        st_ = {'node': node_, 'nonempty': nonempty}
+        out, tr = wi.run(st_)
+        want = ['action'] + ([('position', '%s[0]' % wp, wp)] if (node_ and nonempty) else [])
+        if tr[:1] != ['action']:
+            calls_f = order_ok = False
+        if tr != want:
+            sets = False
+        if not (out.kind == 'return' and (out.value is None or (isinstance(out.value, ast.Name) and st_.get('env', {}).get(out.value.id) == 'action-result')
+                                          or pm.match('%s(%s, %s)' % (fparam, ws, wp), out.value) is not None)):
+            sets = False
     r.check(calls_f and sets and order_ok, 'track_production runs the action, then positions p[0] when it is a Node', tpf,
             construct='bridgepoint.oal:track_production', key='wrapper',
             msg='track_production no longer (1) calls the action, then (2) calls set_positional_info(p[0], p) for every '
